@@ -92,6 +92,11 @@ func runC15(c *Ctx) {
 					path = normVersion(ref.Pick(r, versionPool)) + ref.Pick(r, []string{"", "a", "a/b", "/", "v1/z"})
 				}
 				req := &http.Request{Method: "GET", URL: &url.URL{Path: path, RawQuery: "q=1", Host: "h"}, Header: http.Header{"Accept": {"a/b"}}, Host: "h"}
+				if r.Bool() && strings.Contains(path, "a") {
+					// what net/http delivers for a target with percent-encoded bytes: Path decoded, RawPath as sent
+					req.URL.RawPath = strings.ReplaceAll(path, "a", "%61")
+					c.Class("request_with_raw_path")
+				}
 				before := *req.URL
 				ctx, preP, preS := c15Ctx(r)
 				got := m.Match(req, ctx)
